@@ -88,6 +88,11 @@ func TestVerif_C16(t *testing.T) {
 		cfg.Constant = true
 		cfg.MinSecs, cfg.MaxSecs, cfg.PreviewSecs = 1, 2, 1
 		cfg.Motion = simpleMotion(2, 1)
+		if idx%2 == 1 {
+			// the smallest frame ring the daemon can have (preview-secs 0, trigger-frames 2: two
+			// slots): the slot a snapshot is taken from is the one refilled next but one
+			cfg.PreviewSecs = 0
+		}
 		feedMode := rng.Intn(3) // 0 full speed, 1 bursts, 2 paced
 		hookYield := rng.Intn(3)
 		c.Case(idx, func() interface{} {
